@@ -37,11 +37,11 @@ import (
 // capEvents is an events DB that just records what the state emits.
 type capEvents struct{ evs []events.Event }
 
-func (e *capEvents) AddEvent(ev events.Event)          { e.evs = append(e.evs, ev) }
-func (e *capEvents) LoadEvents(uint32) events.Events   { return nil }
-func (e *capEvents) CommitEvents(uint32) error         { return nil }
-func (e *capEvents) Close() error                      { return nil }
-func (e *capEvents) take() (out []events.Event)        { out, e.evs = e.evs, nil; return }
+func (e *capEvents) AddEvent(ev events.Event)        { e.evs = append(e.evs, ev) }
+func (e *capEvents) LoadEvents(uint32) events.Events { return nil }
+func (e *capEvents) CommitEvents(uint32) error       { return nil }
+func (e *capEvents) Close() error                    { return nil }
+func (e *capEvents) take() (out []events.Event)      { out, e.evs = e.evs, nil; return }
 
 // bareState is a state.State (V3 = SwapV2) on a memdb that can be committed and re-opened from disk.
 type bareState struct {
@@ -117,8 +117,11 @@ func guarded(f func()) (pv interface{}, site string) {
 		site string
 	}
 	ch := make(chan res, 1)
+	gid := make(chan string, 1)
 	go func() {
 		var r res
+		var hdr [40]byte
+		gid <- string(hdr[:runtime.Stack(hdr[:], false)]) // "goroutine N [running]:..."
 		defer func() {
 			if x := recover(); x != nil {
 				r.pv = x
@@ -136,14 +139,18 @@ func guarded(f func()) (pv interface{}, site string) {
 	case <-t.C:
 		buf := make([]byte, 1<<20)
 		buf = buf[:runtime.Stack(buf, true)]
-		return fmt.Sprintf("%s within %s", hangMarker, hangLimit), hangSite(string(buf))
+		id := <-gid
+		if i := strings.Index(id, " ["); i > 0 {
+			id = id[:i+2]
+		}
+		return fmt.Sprintf("%s within %s", hangMarker, hangLimit), hangSite(string(buf), id)
 	}
 }
 
 // hangSite finds the goroutine stuck below guarded() in a dump of all goroutines and names its innermost repo frames.
-func hangSite(dump string) string {
+func hangSite(dump, gid string) string {
 	for _, g := range strings.Split(dump, "\n\n") {
-		if !strings.Contains(g, "h.guarded.func1") {
+		if !strings.HasPrefix(g, gid) || !strings.Contains(g, "h.guarded.func1") {
 			continue
 		}
 		var fr []string
@@ -203,11 +210,10 @@ func panicSite(stack string) string {
 
 // opLog is the replayable trace of one package-level case (written as the witness of a violation).
 type opLog struct {
-	Prop  string        `json:"property"`
-	Seed  int64         `json:"seed"`
-	Idx   int           `json:"idx"`
-	Ops   []interface{} `json:"ops"`
-	limit int
+	Prop string        `json:"property"`
+	Seed int64         `json:"seed"`
+	Idx  int           `json:"idx"`
+	Ops  []interface{} `json:"ops"`
 }
 
 func (l *opLog) add(kind string, kv ...interface{}) {
@@ -281,18 +287,22 @@ type c13Pool struct {
 }
 
 type c13 struct {
-	ctx   *WorkCtx
-	r     *rand.Rand
-	b     *bareState
-	log   *opLog
-	nviol int
+	ctx    *WorkCtx
+	r      *rand.Rand
+	b      *bareState
+	log    *opLog
+	nviol  int
 	owners []types.Address
 }
 
 func (c *c13) sw() *swap.SwapV2 { return c.b.St.SwapV2 }
 
 func (c *c13) viol(rule, site, format string, a ...interface{}) {
-	pkgViol(c.ctx, c.log, &c.nviol, rule, site, fmt.Sprintf(format, a...))
+	d := fmt.Sprintf(format, a...)
+	pkgViol(c.ctx, c.log, &c.nviol, rule, site, d)
+	if strings.Contains(d, hangMarker) {
+		c.nviol += 100 // the pair's lock is held by the call that never returned: abandon the case
+	}
 }
 
 func init() {
@@ -304,7 +314,7 @@ func init() {
 			"LP supply and holder balances are tracked by the harness exactly as add/remove liquidity transactions pass them (coinLiquidity.Volume())",
 			"multi-hop routes, commission swaps and failed-tx fees are covered by the node-level part, not here",
 		},
-		Quick: 210, Thorough: 6300, MinEval: 20000, MinDistinct: 40,
+		Quick: 300, Thorough: 9000, MinEval: 50000, MinDistinct: 60,
 		Run: runC13,
 	})
 }
@@ -456,12 +466,20 @@ func (c *c13) pool(c0, c1 types.CoinID, nOps int) {
 		case k < 95:
 			c.burn(p)
 		default:
-			c.b.Commit()
-			p.height++
 			c.log.add("commit")
+			if pv, site := guarded(func() { c.b.Commit() }); pv != nil {
+				c.viol("panic", "Commit:"+site, "state.Commit after the operations above: %v", pv)
+				c.nviol += 100
+				return
+			}
+			p.height++
 			if r.Intn(3) == 0 {
-				c.b.Reload()
 				c.log.add("reload")
+				if pv, site := guarded(func() { c.b.Reload() }); pv != nil {
+					c.viol("panic", "Reload:"+site, "re-opening the state from disk: %v", pv)
+					c.nviol += 100
+					return
+				}
 				c.ctx.Res.Count("reloads", 1)
 			}
 		}
@@ -636,7 +654,7 @@ func (c *c13) trade(p *c13Pool, sell bool) {
 		}
 	}); pv != nil {
 		c.log.add(op+"-precheck-panic", "cin", uint32(cin), "cout", uint32(cout), "amount", amt, "rin", rin, "rout", rout)
-		c.viol("panic", "precheck/"+op+":"+site, "pre-check of %s %s (coin %d->%d, reserves %s,%s) panicked: %v", op, amt, cin, cout, rin, rout, pv)
+		c.viol("panic", "precheck/"+op+":"+site, "pre-check of %s %s (coin %d->%d, reserves %s,%s) %v", op, amt, cin, cout, rin, rout, pv)
 		return
 	}
 	accepted := pre != nil
@@ -650,6 +668,10 @@ func (c *c13) trade(p *c13Pool, sell bool) {
 		return
 	}
 	burnBefore := c.b.St.Accounts.GetBalance(swapBurnAddress, cin)
+	var ownBefore []*big.Int
+	for _, a := range c.owners {
+		ownBefore = append(ownBefore, bcopy(c.b.St.Accounts.GetBalance(a, cin)), bcopy(c.b.St.Accounts.GetBalance(a, cout)))
+	}
 	c.log.add(op, "cin", uint32(cin), "cout", uint32(cout), "amount", amt, "kind", kind, "rin", rin, "rout", rout, "precheck", pre, "precheckFills", len(preOrders))
 	var ain, aout *big.Int
 	var det *swap.ChangeDetailsWithOrders
@@ -702,6 +724,22 @@ func (c *c13) trade(p *c13Pool, sell bool) {
 	}
 	if sell && ain != nil && ain.Cmp(amt) != 0 || !sell && aout != nil && aout.Cmp(amt) != 0 {
 		c.viol("conservation", op+"/amount", "%s: executed amount differs from the requested one", desc())
+	}
+	// (d) a trade never takes anything from an order owner's account (dust refunds of closed orders are credits)
+	for i, a := range c.owners {
+		for j, coin := range []types.CoinID{cin, cout} {
+			if now := c.b.St.Accounts.GetBalance(a, coin); now.Cmp(ownBefore[2*i+j]) < 0 {
+				ids := ""
+				for _, o := range det.Orders {
+					ids += fmt.Sprintf(" #%d(%s/%s)", o.ID(), o.WantBuy, o.WantSell)
+					if len(ids) > 500 {
+						ids += " ..."
+						break
+					}
+				}
+				c.viol("owner-debited", op, "%s: balance of order owner %s in coin %d went from %s to %s; fills:%s", desc(), a.String(), coin, ownBefore[2*i+j], now, ids)
+			}
+		}
 	}
 	if fills > 0 {
 		c.ctx.Res.Count("trades-with-fills", 1)
